@@ -179,15 +179,41 @@ def run_replay(prop, record, tier="quick"):
     extra = THOROUGH_ENV.get(prop, {}) if tier == "thorough" else {}
     try:
         p = subprocess.run(["/venv/bin/python", script], input=json.dumps(record), capture_output=True,
-                           text=True, timeout=1500 if tier == "thorough" else 300, cwd=ROOT,
+                           text=True, timeout=2400 if tier == "thorough" else 240, cwd=ROOT,
                            env={**os.environ, **extra, "PYTHONPATH": os.environ.get("VERIF_REPO", "/repo") + "/src"})
         line = (p.stdout.strip().splitlines() or [""])[-1]
         try:
             return json.loads(line)
         except json.JSONDecodeError:
+            # the scenario program itself died.  When the innermost frame of the traceback is library code (not the harness),
+            # the library raised where the unchanged tree does not: that is a native failure, with the exception as witness.
+            # A crash inside the harness (e.g. it reaches for a private name a refactoring renamed) stays "not understood".
+            frames = [ln for ln in p.stderr.splitlines() if ln.lstrip().startswith('File "')]
+            last = (p.stderr.strip().splitlines() or [""])[-1]
+            repo_src = os.environ.get("VERIF_REPO", "/repo") + "/src/haiway/"
+            if p.returncode != 0 and frames and repo_src in frames[-1]:
+                where = frames[-1].strip()
+                return dict(reproduced=True, cases_tried=1,
+                            detail=dict(problem=f"the native scenario program was aborted by an exception raised inside the library: "
+                                                f"{last[:300]} ({where[:200]})"))
+            if p.returncode != 0 and frames:
+                # ... and when it died in the harness's own frames: on the unchanged tree the same program runs to its end, so the
+                # library handed the harness something it cannot use (a decorator that returns None, a class that cannot be
+                # declared, a call that needs other arguments).  The one exception: the harness reaching for a *private* name
+                # of the library that is no longer there (a renaming refactor) - that is the harness's problem, not a verdict.
+                private = (last.startswith(("AttributeError", "ImportError", "NameError", "KeyError")) and "'_" in last
+                           and "NoneType" not in last)
+                if not private:
+                    return dict(reproduced=True, cases_tried=1,
+                                detail=dict(problem=f"the native scenario program, which runs to its end on the unchanged tree, was "
+                                                    f"aborted: {last[:300]} ({frames[-1].strip()[:160]})"))
             return dict(reproduced=False, detail=f"replay builder output not understood: {p.stdout[-500:]} {p.stderr[-500:]}")
     except subprocess.TimeoutExpired:
-        return dict(reproduced=False, detail="native replay timed out")
+        # the scenario programs run in virtual time and finish within seconds on the unchanged tree: one that does not come back
+        # is spinning inside the library (a loop that no longer makes progress)
+        return dict(reproduced=True, cases_tried=1,
+                    detail=dict(problem="the native scenario program did not finish within its time limit (it takes seconds on the "
+                                        "unchanged tree): the library spins or blocks where it used to make progress"))
 
 
 def open_obls_pre(undecided):
